@@ -67,7 +67,7 @@ Theorem iterator_spec :
     let d := drain P ev src vp tr fuel B init_state in
     complete d \/ sound_prefix d.
 Proof.
-  pose proof (refinement P ev sev src vp tr ev_ok Hsrc) as Href.
+  pose proof (refinement P ev sev src vp tr (pmc tr) (fun _ => eq_refl) ev_ok Hsrc) as Href.
   fold answer in Href. destruct Href as [Href | Href].
   - unfold ok_run in Href.
     destruct (snd answer) as [e|] eqn:Hex.
